@@ -281,4 +281,3 @@ func edgeByteGuardPhi(b *ssa.BasicBlock, x ssa.Value, front bool) string {
 	}
 	return ""
 }
-
